@@ -75,6 +75,7 @@ DIFF_DOC = '''<?xml version="1.0" encoding="UTF-8"?>
 </topologydiff>
 '''
 
+MAXA = 16            # MaxA of MC_XmlMut.tla
 TAG = re.compile(r'<(/?)([A-Za-z_][\w.-]*)((?:\s+[\w:.-]+\s*=\s*"[^"]*")*)\s*(/?)>', re.S)
 ATTR = re.compile(r'([\w:.-]+)(\s*=\s*")([^"]*)(")')
 
@@ -93,7 +94,7 @@ class Doc:
                     e = stack.pop()
                     e["end"] = m.end()
                 continue
-            e = {"name": name, "start": m.start(), "open_end": m.end(), "end": m.end(), "attrs": []}
+            e = {"name": name, "start": m.start(), "open_end": m.end(), "end": m.end(), "attrs": [], "parent": id(stack[-1]) if stack else 0}
             base = m.start(3)
             for a in ATTR.finditer(attrs):
                 e["attrs"].append((a.group(1), base + a.start(3), base + a.end(3), base + a.start(1), base + a.end(4)))
@@ -104,7 +105,16 @@ class Doc:
             e["end"] = len(text)
 
     def shape(self):
-        return len(self.elems), [min(9, len(e["attrs"])) for e in self.elems]
+        return len(self.elems), [min(MAXA, len(e["attrs"])) for e in self.elems]
+
+    def siblings(self):
+        """pairs (e, f), 1-based, of elements that are consecutive children of one parent"""
+        last, res = {}, []
+        for i, e in enumerate(self.elems):
+            if e["parent"] in last:
+                res.append((last[e["parent"]], i + 1))
+            last[e["parent"]] = i + 1
+        return res
 
 
 def apply_recipe(text, recipe):
@@ -203,7 +213,9 @@ def base_documents(ctx, exe_topo):
              "insert_misc 0 1 annot", "group 0 0-1 - 0 0 1",
              "xml_export 0 buffer %s 0 1" % p("v3"), "xml_export 0 buffer %s 2 1" % p("v2"), "destroy 0",
              "reset 1", "init 0", "xml 0 " + io, "filter 0 -1 0", "load 0",
-             "xml_export 0 buffer %s 0 0" % p("io3"), "xml_export 0 buffer %s 2 0" % p("io2"), "destroy 0"]
+             "xml_export 0 buffer %s 0 0" % p("io3"), "xml_export 0 buffer %s 2 0" % p("io2"), "destroy 0",
+             # interleaved processor numbering (Package 0 = PUs 0 and 2, Package 1 = PUs 1 and 3), made "offline" below
+             "reset 1", "init 0", "synthetic 0 pack:2 core:1 pu:2(indexes=0,2,1,3)", "load 0", "xml_export 0 buffer %s 0 0" % p("il"), "destroy 0"]
     bf = ctx.path("base.beh")
     open(bf, "w").write("\n".join(lines) + "\n")
     ctx.record(exe_topo, bf, bf + ".ndjson")
@@ -216,6 +228,13 @@ def base_documents(ctx, exe_topo):
         if need not in docs["v3"]:
             raise vlib.Infra("the base document lacks a %s element" % need)
     docs["diff"] = DIFF_DOC
+    # a document with an offline processor: PU 0 has no object and is in the complete cpusets only, so that siblings ordered by cpuset
+    # (Package 1 = {1,3} before Package 0 = {2}) and by complete cpuset (Package 0 = {0,2} first) are ordered differently
+    t = open(p("il"), encoding="latin-1").read()
+    t, k = re.subn(r'[ \t]*<object type="PU" os_index="0"[^>]*/>\n', "", t)
+    if k != 1:
+        raise vlib.Infra("cannot make PU 0 of the interleaved document offline")
+    docs["offl"] = re.sub(r'(\s)(cpuset|allowed_cpuset)="(0x[0-9a-f]+)"', lambda mm: '%s%s="0x%08x"' % (mm.group(1), mm.group(2), int(mm.group(3), 16) & ~1), t)
     # a document larger than the 16 KiB first read of the loaders that cannot stat their input: the v3 export with one long info value
     m = re.search(r'(<object type="Machine"[^>]*>\n)', docs["v3"])
     if m:
@@ -236,12 +255,15 @@ def mc_module(doc):
     n, attrs = doc.shape()
     objs = [str(i + 1) for i, e in enumerate(doc.elems) if e["name"] == "object"]
     texts = [str(i + 1) for i, e in enumerate(doc.elems) if e["name"] in ("indexes", "u64values", "userdata")]
-    return ("---- MODULE MC_XmlMut_gen ----\nEXTENDS MC_XmlMut\nGNAttr == <<%s>>\nGObjElems == {%s}\nGTextElems == {%s}\n====\n"
-            % (", ".join(map(str, attrs)), ", ".join(objs), ", ".join(texts)), n)
+    q = lambda x: '"%s"' % re.sub(r"[^\w:.-]", "_", x)
+    return ("---- MODULE MC_XmlMut_gen ----\nEXTENDS MC_XmlMut\nGNAttr == <<%s>>\nGObjElems == {%s}\nGTextElems == {%s}\nGElemName == <<%s>>\nGAttrName == <<%s>>\nGSibs == {%s}\n====\n"
+            % (", ".join(map(str, attrs)), ", ".join(objs), ", ".join(texts), ", ".join(q(e["name"]) for e in doc.elems),
+               ", ".join("<<%s>>" % ", ".join(q(a[0]) for a in e["attrs"][:MAXA]) for e in doc.elems),
+               ", ".join("<<%d, %d>>" % p for p in doc.siblings())), n)
 
 
 def mc_cfg(n, maxmut, simlen, sim):
-    return ("SPECIFICATION %s\nCONSTANTS\n  NElem = %d\n  NAttr <- GNAttr\n  ObjElems <- GObjElems\n  NVals = %d\n  NVers = %d\n  NDoctypes = %d\n  NTemplates = %d\n  NContents = %d\n  TextElems <- GTextElems\n  MaxMut = %d\n  SimLen = %d\nINVARIANTS RecipeOK %s\nCHECK_DEADLOCK FALSE\n"
+    return ("SPECIFICATION %s\nCONSTANTS\n  NElem = %d\n  NAttr <- GNAttr\n  ObjElems <- GObjElems\n  NVals = %d\n  NVers = %d\n  NDoctypes = %d\n  NTemplates = %d\n  NContents = %d\n  TextElems <- GTextElems\n  ElemName <- GElemName\n  AttrName <- GAttrName\n  Sibs <- GSibs\n  MaxMut = %d\n  SimLen = %d\nINVARIANTS RecipeOK %s\nCHECK_DEADLOCK FALSE\n"
             % ("SpecSim" if sim else "Spec", n, len(VALS), len(VERS), len(DOCTYPES), len(TEMPLATES), len(CONTENTS), maxmut, simlen, "EmitSim" if sim else "EmitState"))
 
 
@@ -312,29 +334,59 @@ def run(ctx, replay=None):
             items.append((p, kind, pristine, b))
 
     nrec = 0
-    for name, text in sorted(docs.items()):
-        kind = "diff" if name == "diff" else "topo"
-        add(text, kind, 1)
+    seen_classes, ncls_new = set(), 0
+    docorder = ["v3", "offl", "io3", "diff", "hugegp", "v2", "io2", "big"]
+    ordered = sorted(docs.items(), key=lambda kv: (docorder.index(kv[0]) if kv[0] in docorder else 99, kv[0]))
+
+    def model_runs(item):
+        # every single mutation (exhaustive), and simulated pairs / triples
+        name, text = item
         d = Doc(text)
         gen, n = mc_module(d)
-        big = n > 60
-        # every single mutation (exhaustive), and simulated pairs / triples
-        out, st = ctx.tlc_mc("MC_XmlMut_gen", mc_cfg(n, 1, 0, False), tag="mut1_" + name, workers=4,
+        out, st = ctx.tlc_mc("MC_XmlMut_gen", mc_cfg(n, 1, 0, False), tag="mut1_" + name, workers=2,
                              extra_modules=[("MC_XmlMut_gen.tla", gen)], timeout=1200)
         if st["error"] or st["rc"] != 0:
             raise vlib.Infra("MC_XmlMut failed: %s\n%s" % (st["error"], out[-2000:]))
-        singles = list(vlib.tlc_printed(out, "RECIPE"))
-        out, st = ctx.tlc_mc("MC_XmlMut_gen", mc_cfg(n, 3, 2 + (ctx.seed % 2), True), tag="mutsim_" + name, workers=4,
-                             extra_modules=[("MC_XmlMut_gen.tla", gen)], simulate="num=%d" % (2000 if thorough else 250), depth=5, timeout=900)
-        multi = list(vlib.tlc_printed(out, "SIM"))
-        main = name in ("v3", "io3", "diff", "hugegp")           # quick: the other documents (v2 formats, the padded one) get the always-taken recipes and a smaller sample
-        keep1 = len(singles) if (thorough and not big) else min(len(singles), 2500 if thorough else (200 if main else 60))
+        recs = list(vlib.tlc_printed(out, "RECIPE"))
+        out, st = ctx.tlc_mc("MC_XmlMut_gen", mc_cfg(n, 3, 2 + (ctx.seed % 2), True), tag="mutsim_" + name, workers=2,
+                             extra_modules=[("MC_XmlMut_gen.tla", gen)], simulate="num=%d" % (4000 if thorough else 500), depth=5, timeout=900)
+        return d, n, recs, list(vlib.tlc_printed(out, "SIM"))
+
+    from concurrent.futures import ThreadPoolExecutor
+    with ThreadPoolExecutor(max_workers=max(1, vlib.NCPU // 2)) as ex:
+        models = list(ex.map(model_runs, ordered))
+    for (name, text), (d, n, recs, multi) in zip(ordered, models):
+        kind = "diff" if name == "diff" else "topo"
+        add(text, kind, 1)
+        big = n > 60
+        singles = [x["r"] for x in recs]
+        main = name in ("v3", "io3", "diff", "hugegp", "offl")           # quick: the other documents (v2 formats, the padded one) get the always-taken recipes and a smaller sample
+        keep1 = len(singles) if (thorough and not big) else min(len(singles), 2500 if thorough else (120 if main else 40))
         keepm = min(len(multi), 4000 if thorough else (100 if main else 30))
         if keep1 == len(singles):
             picks1 = singles
+            for x in recs:
+                seen_classes.add(tuple(x["c"]))
         else:
-            # always taken: the document ends at every point of the first start tag of each distinct element name, and the root object
-            # (first <object>) gets every attribute-list template; the rest is a seeded sample spread over the mutation kinds
+            # always taken: (1) the first recipe (seeded order) of every mutation class - Class(m) of MC_XmlMut.tla: kind of mutation x element
+            # name x attribute name x pool value - that no earlier base document offered; (2) the document ends at every point of the first start
+            # tag of each distinct element name, and the root object (first <object>) gets every attribute-list template; the rest is a seeded
+            # sample spread over the mutation kinds
+            order = list(range(len(recs)))
+            rng.shuffle(order)
+            percls = {}
+            for i in order:
+                c = tuple(recs[i]["c"])
+                if c[0] in ("swapelems", "dupelem", "dropelem", "setcontent"):
+                    c = c + (name,)          # what moving whole elements does depends on the document: these classes are taken in every document
+                if c in seen_classes:
+                    continue
+                percls.setdefault(c, [])
+                if len(percls[c]) < (3 if thorough else 1):
+                    percls[c].append(recs[i]["r"])
+            seen_classes.update(percls)
+            bycls = [r for c in sorted(percls) for r in percls[c]]
+            ncls_new += len(percls)
             first, root = {}, None
             for i, e in enumerate(d.elems):
                 first.setdefault(e["name"], i + 1)
@@ -343,8 +395,11 @@ def run(ctx, replay=None):
             firsts = set(first.values())
             prio = [r for r in singles if (r[0][0] in ("cutat", "dupelem", "dropelem") and r[0][1] in firsts) or (r[0][0] == "retype" and r[0][1] == root and (thorough or (main and r[0][2] % 3 == ctx.seed % 3)))
                     or r[0][0] in ("doctype", "setversion", "truncate") or (r[0][0] == "setcontent" and r[0][1] in firsts)]
-            rest = [r for r in singles if r not in prio] if len(singles) < 20000 else singles
-            picks1 = prio + by_kind(rest, keep1, rng)
+            taken = set(json.dumps(r) for r in bycls)
+            prio = [r for r in prio if json.dumps(r) not in taken]
+            rest = singles
+            picks1 = bycls + prio + by_kind(rest, keep1, rng)
+            ctx.extra.setdefault("classes", {})[name] = len(percls)
         picks = picks1 + (multi if keepm == len(multi) else rng.sample(multi, keepm))
         ctx.extra["recipes_" + name] = {"single_enumerated": len(singles), "single_used": keep1, "multi_used": keepm, "elements": n}
         nrec += len(picks)
